@@ -328,6 +328,36 @@ func c11UCase(o *hx.Out, x1, x2 []int64, alt int, stream string) {
 	o.Add(cs, c11UInput{"utest", x1, x2, alt}, key, n1 > 0 && n2 > 0 && regime != "all-equal", tags...)
 }
 
+type c11EInput struct {
+	Kind string `json:"kind"`
+	N1   int    `json:"n1"`
+	N2   int    `json:"n2"`
+	V    int64  `json:"v"`
+	Alt  int    `json:"alt"`
+}
+
+// c11ECase runs the test on n1 and n2 copies of v and ships only the sizes: the
+// large all-equal samples (the sigma == 0 rounding defect showed at 165142+165142
+// and 165146+165146 values) must be reported as ErrSamplesEqual.
+func c11ECase(o *hx.Out, n1, n2 int, v int64, alt int) {
+	mk := func(n int) []float64 {
+		x := make([]float64, n)
+		for i := range x {
+			x[i] = float64(v)
+		}
+		return x
+	}
+	out, _, _ := c11Outcome(mk(n1), mk(n2), alt)
+	o.Count("utest:all-equal-by-size")
+	if n1+n2 > 330283 {
+		o.Count("equal-size:above-330283")
+	} else {
+		o.Count("equal-size:" + c11SizeClass(n1+n2))
+	}
+	cs := hx.L(hx.I(3), hx.I(n1), hx.I(n2), hx.I(int(v)), hx.I(alt), out)
+	o.Add(cs, c11EInput{"utest-constant", n1, n2, v, alt}, fmt.Sprint("e", n1, n2, v, alt), false)
+}
+
 func c11F(f func() float64) (sx hx.Sx) {
 	defer func() {
 		if rec := recover(); rec != nil {
@@ -430,7 +460,7 @@ func c11Compositions(N int, f func([]int)) {
 
 func genC11(o *hx.Out, r *hx.Rng, tier string, replay string) error {
 	thorough := tier == "thorough"
-	o.Rule = "kind utest: every pair of multisets over the ordered alphabet {0,1,2,3} with sizes up to the bound (presented in shuffled order) x 3 alternatives, empty samples, random samples with sizes 20-60 on both sides of the 25/50 switches (untied, heavily tied, lightly tied, all equal, shifted); a deterministic sweep over every pooled size N = 18..50 in the tied exact regime (all near-even splits, a subset of the others; big runs, several runs, light ties) and N = 18..36 untied; kind udist: every tie vector (composition of N) x every n1 through UDist.CDF/PMF at every half-integer plus quarter points, untied UDist for all small n1,n2. non-trivial = not an error case; distinct by input"
+	o.Rule = "kind utest: every pair of multisets over the ordered alphabet {0,1,2,3} with sizes up to the bound (presented in shuffled order) x 3 alternatives, empty samples, random samples with sizes 20-60 on both sides of the 25/50 switches (untied, heavily tied, lightly tied, all equal, shifted); a deterministic sweep over every pooled size N = 18..50 in the tied exact regime (all near-even splits, a subset of the others; big runs, several runs, light ties) and N = 18..36 untied; constant samples given by their sizes (n1 and n2 copies of one value, up to 165146+165146 values: must be ErrSamplesEqual); kind udist: every tie vector (composition of N) x every n1 through UDist.CDF/PMF at every half-integer plus quarter points, untied UDist for all small n1,n2. non-trivial = not an error case; distinct by input"
 	nmax := 4
 	if thorough {
 		nmax = 5
@@ -450,6 +480,18 @@ func genC11(o *hx.Out, r *hx.Rng, tier string, replay string) error {
 		c11UCase(o, []int64{1, 2}, []int64{1, 3, 0}, alt, "witness")
 		c11UCase(o, []int64{1, 2, 3, 5}, []int64{1, 1, 1, 1, 1}, alt, "witness")
 		c11UCase(o, []int64{1, 1, 1, 1, 1}, []int64{1, 2, 3, 5}, alt, "witness")
+	}
+	// --- constant samples by size: small ones, both sides of every switch, and the two
+	// sizes just above the last pooled size (330283) for which sigma == 0 used to work
+	for _, alt := range alts {
+		for _, nn := range [][2]int{{0, 3}, {1, 1}, {25, 26}, {30, 31}, {51, 50}, {100, 100}, {165142, 165142}, {165146, 165146}} {
+			c11ECase(o, nn[0], nn[1], 7, alt)
+		}
+	}
+	if thorough {
+		for _, nn := range [][2]int{{104032, 104032}, {165141, 165142}, {165143, 165143}, {200000, 300000}, {1, 330291}} {
+			c11ECase(o, nn[0], nn[1], -3, 0)
+		}
 	}
 	// --- exhaustive small samples
 	var ms [][][]int64
